@@ -74,3 +74,47 @@ def coords(rng, n, ties=True):
 def symm_coq(A):
     """tinygp SymmQSM -> Coq literal of a Model qsm."""
     return gen.qsm_coq(gen.impl_to_spec(A))
+
+
+def kalman_tables(kern, X):
+    """The state-space tables of a quasiseparable kernel on sorted inputs, in input order, from the kernel's own methods:
+    A_k = transition_matrix(x_(k-1), x_k) (A_0 = transition_matrix(x_0, x_0)), H_k = observation_model(x_k).
+    How KalmanSolver orders them is part of the model (GP.kalman_solver)."""
+    import jax
+    import jax.numpy as jnp
+    Xp = jax.tree_util.tree_map(lambda v: jnp.concatenate((v[:1], v[:-1])), X)
+    return np.asarray(jax.vmap(kern.transition_matrix)(Xp, X)), np.asarray(jax.vmap(kern.observation_model)(X))
+
+
+def structured_kernels():
+    """Wrappers over structured (time, label) coordinates.
+    Multiband: amplitude per band (parallel observation vectors).  Latent: a different linear combination of the state per label
+    (observation vectors of different DIRECTIONS, as in the derivative-observation tutorial)."""
+    import jax
+    import jax.numpy as jnp
+    from tinygp.kernels import quasisep as qs
+
+    class Multiband(qs.Wrapper):
+        amplitudes: jax.Array
+
+        def coord_to_sortable(self, X):
+            return X[0]
+
+        def observation_model(self, X):
+            return self.amplitudes[X[1]] * self.kernel.observation_model(X[0])
+
+    class Latent(qs.Wrapper):
+        coeff_prim: jax.Array
+        coeff_deriv: jax.Array
+
+        def coord_to_sortable(self, X):
+            return X[0]
+
+        def observation_model(self, X):
+            t, label = X
+            design = self.kernel.design_matrix()
+            obs = self.kernel.observation_model(t)
+            obs_prim = jnp.asarray(self.coeff_prim)[label] * obs
+            obs_deriv = jnp.asarray(self.coeff_deriv)[label] * obs @ design
+            return obs_prim - obs_deriv
+    return Multiband, Latent
